@@ -1,0 +1,39 @@
+//! Verification hooks (only compiled with `--cfg capy_verif`).
+//!
+//! A thread-local step counter which is incremented every time the parser looks at a token,
+//! with an optional fuel limit so that a non-terminating parse becomes a deterministic panic.
+//! With no fuel set (the default) this does nothing but count.
+
+use std::cell::Cell;
+
+pub const FUEL_EXHAUSTED_MSG: &str = "capy_verif: parser fuel exhausted";
+
+thread_local! {
+    static STEPS: Cell<u64> = const { Cell::new(0) };
+    static FUEL: Cell<u64> = const { Cell::new(u64::MAX) };
+}
+
+/// Resets the step counter and sets the fuel limit (`None` = unlimited)
+pub fn set_fuel(fuel: Option<u64>) {
+    STEPS.with(|s| s.set(0));
+    FUEL.with(|f| f.set(fuel.unwrap_or(u64::MAX)));
+}
+
+/// The number of steps taken since the last `set_fuel`
+pub fn steps() -> u64 {
+    STEPS.with(|s| s.get())
+}
+
+#[inline]
+pub(crate) fn step() {
+    let steps = STEPS.with(|s| {
+        let n = s.get() + 1;
+        s.set(n);
+        n
+    });
+    if steps > FUEL.with(|f| f.get()) {
+        // stop counting so unwinding code can't panic again
+        FUEL.with(|f| f.set(u64::MAX));
+        panic!("{}", FUEL_EXHAUSTED_MSG);
+    }
+}
